@@ -9,7 +9,7 @@ DRV = 'drv_c06'
 UN = ['not', 'notop', 'notref', 'rev', 'lz', 'lo', 'tz', 'to', 'cnt1', 'cnt0', 'bitlen', 'bytelen', 'msb', 'ispow2',
       'npow2', 'cnpow2']
 BIN2 = ['%s%d' % (o, k) for o in ('and', 'or', 'xor') for k in range(8)]
-IDX = ['bit', 'byte', 'cbyte']
+IDX = ['bit', 'bitidx', 'byte', 'cbyte']
 RULE = ('corpus, then exhaustive at widths 0..8 (0..10 thorough): every value x every unary op, every value x every index '
         '0..bits+64 for bit/set_bit/byte/checked_byte, all operand pairs at widths 0..4 for and/or/xor; then structured cases over 37 '
         'widths: shared value classes plus top-limb-zero values, MAX, 2^k, 2^k-1, 2^k+1, all-ones low limbs, single-limb patterns at '
@@ -104,6 +104,7 @@ def gen(rng, tier):
                 yield '%s %d %s' % (op, bits, hx(a))
             for i in range(bits + 65):
                 yield 'bit %d %s %s' % (bits, hx(a), hx(i))
+                yield 'bitidx %d %s %s' % (bits, hx(a), hx(i))
                 if i < (bits + 7) // 8 + 3:
                     yield 'byte %d %s %s' % (bits, hx(a), hx(i))
                     yield 'cbyte %d %s %s' % (bits, hx(a), hx(i))
